@@ -2,7 +2,7 @@
 # confirm_seed.sh <name> <worktree-with-seed-dir>  : independent confirmation of a seeded change in a fresh worktree
 # 1. existing suite passes with the change  2. demo fails with the change  3. demo passes without the change
 set -u
-NAME=$1; SRC=$2
+NAME=$1; SRC=$2; FLAGS=${3:-}
 W=/tmp/confirm-$NAME
 rm -rf $W; git -C /repo worktree add -q --detach $W HEAD || exit 9
 cd $W
@@ -13,9 +13,9 @@ cp $SRC/seed/notes.md $OUT/notes.md 2>/dev/null
 git apply $OUT/patch.diff || { echo "patch does not apply"; exit 8; }
 cargo test --workspace --offline > $OUT/suite_with_change.log 2>&1; S1=$?
 cp $OUT/seed_demo.rs embedded-cli/tests/seed_demo.rs
-cargo test -p embedded-cli --offline --test seed_demo > $OUT/demo_with_change.log 2>&1; S2=$?
+cargo test -p embedded-cli --offline --test seed_demo $FLAGS > $OUT/demo_with_change.log 2>&1; S2=$?
 git checkout -q -- embedded-cli embedded-cli-macros 2>/dev/null
-cargo test -p embedded-cli --offline --test seed_demo > $OUT/demo_without_change.log 2>&1; S3=$?
-echo "{\"suite_with_change_exit\": $S1, \"demo_with_change_exit\": $S2, \"demo_without_change_exit\": $S3}" > $OUT/confirm.json
+cargo test -p embedded-cli --offline --test seed_demo $FLAGS > $OUT/demo_without_change.log 2>&1; S3=$?
+echo "{\"demo_flags\": \"$FLAGS\", \"suite_with_change_exit\": $S1, \"demo_with_change_exit\": $S2, \"demo_without_change_exit\": $S3}" > $OUT/confirm.json
 cat $OUT/confirm.json
 cd /; git -C /repo worktree remove --force $W
